@@ -51,7 +51,7 @@ func (c12) RequiredCounters(tier string) []string {
 	return []string{"messages_checked", "must_obligations", "writer_calls", "sub_done_events", "racing_pairs_parked",
 		"hook:sub.update.beforeWriteLock", "hook:sub.complete.afterRemovedCheck", "hook:sub.error.afterRemovedCheck",
 		"hook:sub.heartbeat.beforeSend", "hook:sub.join.beforeStartupHook", "hook:sub.update.afterFilter",
-		"solo_crosschecks", "filtered_events_withheld", "source_defined_order_constraints", "overlapping_update_calls", "order_agreements_checked", "writer_heartbeats", "sync_ids_learned", "cases_history", "cases_script"}
+		"solo_crosschecks", "filtered_events_withheld", "source_defined_order_constraints", "overlapping_update_calls", "order_agreements_checked", "must_filter_match_first", "must_filter_match_later", "filter_shape_in+multi-value-in", "filter_shape_or+multi-value-in", "filter_shape_and+multi-value-in", "filter_shape_not+multi-value-in", "writer_heartbeats", "sync_ids_learned", "cases_history", "cases_script"}
 }
 
 func (p c12) Run(c *fw.Ctx, idx int) fw.Result {
@@ -68,7 +68,7 @@ func (p c12) Run(c *fw.Ctx, idx int) fw.Result {
 	Check(&res, h)
 	if ci.Kind == "script" {
 		res.Key = fw.HashKey("C12", ci.Name, ci.ShutdownAt)
-		res.Nontrivial = h.Parked > 0 || ((ci.Row == 6 || ci.Row == 11) && res.Counters["messages_checked"] > 0)
+		res.Nontrivial = h.Parked > 0 || ((ci.Row == 6 || ci.Row == 11 || ci.Row == 14) && res.Counters["messages_checked"] > 0)
 		if len(ci.NotReached) > 0 {
 			res.Inconclusive = "hook-not-reached: " + strings.Join(ci.NotReached, ", ")
 		}
@@ -206,7 +206,8 @@ func Check(res *fw.Result, h *subrig.History) {
 				}
 			}
 			if !s.Filter.Pass(e.G) {
-				violate(res, "delivery.filtered-out", fmt.Sprintf("%s (filter %s) received e%d with g=%d", sname, s.Filter, eid, e.G), nil, witness(nil))
+				violate(res, "delivery.filtered-out", fmt.Sprintf("%s (filter %s) received e%d with g=%d, which does not pass the filter", sname, s.Filter, eid, e.G),
+					map[string]string{"filter_shape": s.Filter.Shape(), "explained_by_requoted_string_value": fmt.Sprint(s.Filter.PassRequoted(e.G))}, witness(map[string]any{"event": e.Payload, "variables": s.Filter.Vars()}))
 			}
 			if e.Target != nil && e.Target != s {
 				violate(res, "delivery.wrong-target", fmt.Sprintf("%s received e%d addressed to s%d", sname, eid, e.Target.Idx), nil, witness(nil))
@@ -269,9 +270,12 @@ func Check(res *fw.Result, h *subrig.History) {
 				continue
 			}
 			res.Count("must_obligations", 1)
+			if !s.Filter.None() {
+				res.Count("must_filter_match_"+s.Filter.MatchPosition(e.G), 1)
+			}
 			if !seen[e.ID] {
 				violate(res, "delivery.missing", fmt.Sprintf("%s did not receive e%d (g=%d, filter %s): it was attached before the event began (t=%d) and nothing that may remove it began before the event ended (t=%d)", sname, e.ID, e.G, s.Filter, e.Call, e.Ret),
-					nil, witness(map[string]any{"first_removal": rem}))
+					map[string]string{"filter_shape": s.Filter.Shape(), "match_position": s.Filter.MatchPosition(e.G), "explained_by_requoted_string_value": fmt.Sprint(!s.Filter.PassRequoted(e.G))}, witness(map[string]any{"first_removal": rem, "event": e.Payload, "variables": s.Filter.Vars()}))
 			}
 		}
 	}
